@@ -181,19 +181,23 @@ def matchOf : List String → Option (Option String)
 def emptyBinding (r : Option (Option String)) : Bool :=
   match r with | some (some kv) => anyEmptyValue kv | _ => false
 
-def hasPctLiteral (p : Except Nat Pat) : Bool :=
-  match p with | .ok p => p.lits.any (fun l => !pctNormal l) | .error _ => false
-
 def kvCount (kv : String) : Nat := if kv == "." then 0 else (kv.splitOn ",").length
 
+/-- Number of `:name` segments of a pattern text, by the automaton alone (no duplicate-name check), so that the
+monitor's expectation does not depend on which patterns the model's `parse` accepts. -/
+def paramCount (s : Bytes) : Option Nat :=
+  match parseLoop {} 0 s with
+  | .error _ => none
+  | .ok (a, offset) =>
+    match parseEnd a offset with
+    | .error _ => none
+    | .ok segments => some (segments.filter (·.parameter)).length
+
 /-- A match must bind every parameter of the pattern: `some reason` when the number of bindings differs from the
-number of parameters (classified: do two names coincide after percent-decoding?). -/
+number of parameters. -/
 def countProblem (p : String) (r : Option (Option String)) : Option String :=
-  match r, patArg p with
-  | some (some kv), some (.ok pat) =>
-    if kvCount kv == pat.params.length then none
-    else if !nodupB (pat.params.map decodeLossy) then some "binding-lost-names-collide-decoded"
-    else some "binding-count-mismatch"
+  match r, (strArg p).bind paramCount with
+  | some (some kv), some n => if kvCount kv == n then none else some "binding-count-mismatch"
   | _, _ => none
 
 def splitBar (ws : List String) : List (List String) :=
@@ -233,11 +237,8 @@ def Mon.step (m : Mon) (line : String) (out : String) : Mon × Option String :=
         else if (countProblem p (some m1)).isSome then (m, countProblem p (some m1))
         else if (countProblem q (some m2)).isSome then (m, countProblem q (some m2))
         else if m1.isSome && m2.isSome && a == "0" then
-          -- one URI matched by both patterns but not reported: classify the witness
-          let pct := match patArg p, patArg q with
-            | some a, some b => hasPctLiteral a || hasPctLiteral b
-            | _, _ => false
-          (m, some (if pct then "ambiguity-missed-pct-literal" else "ambiguity-missed"))
+          -- one URI matched by both patterns but the pair is not reported
+          (m, some "ambiguity-missed")
         else (m, none)
       | _, _ => (m, some "unexpected-result")
     | _ => (m, some "unexpected-result")
@@ -256,9 +257,7 @@ def Mon.step (m : Mon) (line : String) (out : String) : Mon × Option String :=
         match ow with
         | "ok" :: route :: rest =>
           if matchOf rest == some (some (renderKV mp)) then (m, none)
-          else
-            let tilde := match bytesOfHex route with | some bs => bs.contains 126 | none => false
-            (m, some (if tilde then "roundtrip-lost-tilde-value" else "roundtrip-differs"))
+          else (m, some "roundtrip-differs")
         | _ => (m, some "apply-failed-on-complete-map")
       else (m, none)
     | _, _ => (m, none)
